@@ -145,5 +145,11 @@ class Grid2DMovingAgent(CellAgent):
             raise ValueError(f"Invalid direction: {direction}")
 
         move_vector = self.DIRECTION_MAP[direction]
+
+        # walk the whole path first, so that a path leaving the grid moves nothing
+        cell = self.cell
         for _ in range(distance):
-            self.move_relative(move_vector)
+            cell = cell.connections.get(move_vector)
+            if cell is None:
+                raise ValueError(f"No cell in direction {move_vector}")
+        self.cell = cell
